@@ -872,7 +872,7 @@ fn filters(r: &mut Runner, t: bool) {
         }
     }
     // large filters: false-positive counting at 100 000 keys and a multi-shard build
-    let big: &[usize] = if t { &[100_000, 150_000, 400_001] } else { &[100_000] };
+    let big: &[usize] = if t { &[100_000, 150_000, 400_001, 10_000_001, 45_000_000] } else { &[100_000] };
     for &n in big {
         for b in [1usize, 4, 8, 12] {
             filter_case!(r, "BitFieldVec<usize>,[u64;2],FuseLge3Shards", n, &d, b, true, W = usize, boxed = false, S = [u64; 2], E = FuseLge3Shards);
